@@ -78,8 +78,12 @@ def run_job(env, spec):
                 j = used[-1] - 1
                 privt2 = list(privt)
                 privt2[j] = privt2[j] + 1
-                goal = z3.Or([O.constraint_term(c, pubt, privt2) % env.P != 0 for c in t.cons])
-                st, _ = H.solve(t.path.facts(), goal, job.timeout)
+                touching = [c for c in t.cons if any(k == -(j + 1) for part in c for k in part)]
+                goal = z3.Or([O.constraint_term(c, pubt, privt2) % env.P != 0 for c in touching])
+                fs = t.path.facts()
+                if len(fs) > 600:          # Poseidon-sized paths: the facts within two steps of the corrupted constraint
+                    fs = H.Slicer(t.path.facts(linear_only=True)).slice(goal, 2)
+                st, _ = H.solve(fs, goal, job.timeout)
                 job.twin(st == "sat")
                 twin_done = True
         if obs:
